@@ -207,6 +207,7 @@ class FS:
         self.env = {}
         self.blksize = blksize
         self.dead = False
+        self.handles = []         # open FakeFile handles (an open handle follows its file through a rename)
         self.injector = None      # callable(i, kind, path): may raise OSError / Crash
         self.on_point = None      # callable(kind, path): scheduling point
         self.owner_of = None      # optional callable() -> label of the running thread (for traces)
@@ -265,6 +266,7 @@ class FS:
         path = self.p(path)
         self.probe("isdir", path)
         if self.b.isdir(path) or self.b.isfile(path):
+            self.tick("mkdir", path)          # os.makedirs issues mkdir(leaf) first; it fails with EEXIST
             if exist_ok and self.b.isdir(path):
                 return
             raise FileExistsError(errno.EEXIST, "File exists", path)
@@ -295,6 +297,9 @@ class FS:
                 raise IsADirectoryError(errno.EISDIR, "Is a directory", path)
             raise FileNotFoundError(errno.ENOENT, "No such file or directory", path)
         self.b.remove(path)
+        for h in self.handles:
+            if not h._closed and h.name == path:
+                h._orphan = True              # unlinked while open: later writes reach no name
 
     def rename(self, src, dst):
         src = self.p(src)
@@ -306,6 +311,12 @@ class FS:
         if self.b.isdir(dst):
             raise IsADirectoryError(errno.EISDIR, "Is a directory", dst)
         self.b.rename(src, dst)
+        for h in self.handles:
+            if not h._closed:
+                if h.name == dst:
+                    h._orphan = True          # the file it had open was replaced
+                elif h.name == src:
+                    h.name = dst
 
     def rmdir(self, path):
         path = self.p(path)
@@ -382,8 +393,9 @@ class FS:
 
 
 class FakeFile(_io.BufferedIOBase):
-    """Binary or text handle over a backend entry.  Text handles buffer their writes until
-    flush/close/seek/truncate/read (one 'write' operation); binary handles write through (one per write())."""
+    """Binary or text handle over a backend entry.  Writes are buffered in user space like CPython's buffered
+    writers: text handles until flush/close/seek/truncate/read, binary handles until two blocks have accumulated
+    (then one 'write' operation) or flush/close.  Unflushed data is invisible to others and lost in a crash."""
 
     def __init__(self, fs, path, mode, encoding=None):
         path = FS.p(path)
@@ -424,6 +436,8 @@ class FakeFile(_io.BufferedIOBase):
         self._writable = base != "r"
         self._append = base == "a"
         self._closed = False
+        self._orphan = False
+        fs.handles.append(self)
 
     # -- buffer plumbing
     def _cur(self):
@@ -434,6 +448,8 @@ class FakeFile(_io.BufferedIOBase):
             return
         pend = self._pending
         self._pending = []
+        if getattr(self, "_orphan", False):
+            return
         self._fs.tick("write", self.name)
         buf = self._cur()
         for pos, d in pend:
@@ -529,8 +545,8 @@ class FakeFile(_io.BufferedIOBase):
         else:
             self._pending.append((self._pos, d))
             self._pos += len(d)
-        if not self._text:
-            self._sync()
+        if not self._text and sum(len(x[1]) for x in self._pending) >= 2 * max(1, self._fs.blksize):
+            self._sync()      # a binary buffered writer flushes when its buffer (two blocks in the model) is full
         return len(d)
 
     def writelines(self, lines):
@@ -640,6 +656,8 @@ class Shim:
             f._writable = True
             f._append = False
             f._closed = False
+            f._orphan = False
+            F.handles.append(f)
             return f
 
         def flock(fd, op):
@@ -693,7 +711,51 @@ class Shim:
             replace=d("rename"), rmdir=d("rmdir"), removedirs=d("removedirs"), listdir=d("listdir"), stat=_stat_fn, chmod=d("chmod"), umask=lambda m: 0o22,
             getenv=lambda k, dflt=None: H.fs.env.get(k, dflt), walk=_walk, getcwd=lambda: "/", environ=EnvProxy(),
             getpid=_os.getpid, error=OSError, mkdir=lambda p, mode=0o777: H.fs.makedirs(p, mode))
-        self.shutil = types.SimpleNamespace(move=d("move"))
+        def copyfile(src, dst, *a, **k):
+            F = H.fs
+            fsrc = FakeFile(F, src, "rb")
+            try:
+                fdst = FakeFile(F, dst, "wb")
+                try:
+                    while True:
+                        chunk = fsrc.read(max(1, F.blksize))
+                        if not chunk:
+                            break
+                        fdst.write(chunk)
+                finally:
+                    fdst.close()
+            finally:
+                fsrc.close()
+            return dst
+
+        def copymode(src, dst, *a, **k):
+            H.fs.chmod(dst, 0o664)
+
+        def copy(src, dst, *a, **k):
+            F = H.fs
+            if F.isdir(dst):
+                dst = posixpath.join(FS.p(dst), posixpath.basename(FS.p(src)))
+            copyfile(src, dst)
+            copymode(src, dst)
+            return dst
+
+        def rmtree(path, ignore_errors=False, onerror=None):
+            F = H.fs
+            path = FS.p(path)
+            try:
+                for name in F.listdir(path):
+                    full = posixpath.join(path, name)
+                    if F.b.isdir(full):
+                        rmtree(full)
+                    else:
+                        F.remove(full)
+                F.rmdir(path)
+            except OSError:
+                if not ignore_errors:
+                    raise
+
+        self.shutil = types.SimpleNamespace(move=d("move"), copyfile=copyfile, copymode=copymode, copystat=copymode,
+                                            copy=copy, copy2=copy, rmtree=rmtree, Error=OSError)
         self.io = types.SimpleNamespace(
             open=fake_open, BufferedIOBase=_io.BufferedIOBase, BufferedReader=_io.BufferedReader,
             BytesIO=_io.BytesIO, StringIO=_io.StringIO, IOBase=_io.IOBase, TextIOWrapper=_io.TextIOWrapper,
